@@ -12,7 +12,11 @@ require (
 require (
 	github.com/bsm/openmetrics v0.3.1 // indirect
 	github.com/jirenius/timerqueue v1.0.0 // indirect
+	github.com/nats-io/nats.go v1.13.1-0.20211122170419-d7c1d78a50fc // indirect
+	github.com/nats-io/nkeys v0.3.0 // indirect
+	github.com/nats-io/nuid v1.0.1 // indirect
 	github.com/rs/xid v1.3.0 // indirect
+	golang.org/x/crypto v0.0.0-20210616213533-5ff15b29337e // indirect
 )
 
 replace github.com/resgateio/resgate => /repo
